@@ -101,5 +101,13 @@ check("C15", "exploration",
       "classes, type names, function_exists, the used-file evaluation counter and the thread's locals are probed against a dictionary model.",
       "Trusted: the dictionary model of the global environment (bindings, not values of shared global objects).",
       "model-checked operation histories with full-environment probes after every step, under ASan", "DESIGN.md section 5 C15")
+check("C10", "exploration",
+      "2.5k/250k generated nests (depth <= 3) of try / 0-3 typed or untyped catch clauses / finally spread over frames (def, lambda, method, "
+      "bind, for_each, map, attribute-held function) throwing 13 kinds (script int/string/class object/runtime_error object/C++ user type; C++ "
+      "std::runtime_error, out_of_range, logic_error, raw int, non-std struct, eval_error; failed dispatch; arithmetic_error) at generated "
+      "positions incl. catch bodies; the exact trace printed by try/catch/finally bodies and the C++ type + payload leaving eval (with and "
+      "without an exception_specification) are compared with a reference model of the documented semantics.",
+      "Trusted: the reference model (C++ class hierarchy of the thrown kinds, first-matching-clause, finally-exactly-once). Catch guards and throwing finally bodies are not generated.",
+      "trace specification + reference model over generated exception nests, under ASan", "DESIGN.md section 5 C10")
 for _p in ["C%02d" % i for i in range(2, 21) if "C%02d" % i not in CHECKS]:
     NA[_p] = "check not implemented yet in this revision (work in progress, see DESIGN.md); nothing is claimed"
